@@ -20,7 +20,10 @@ RULE = (
     "schedules beyond the bound. Oracle after every step: model GC flag disabled while any thread is inside a "
     "wrapped body, in-progress count >= 0, no deadlock, no stray exception; at the end flag == initial flag, count == 0, no underflow "
     "logged. Non-trivial: >= 2 threads and >= 1 preemption that lands while some thread is inside _enter_z3/_exit_z3; distinct by "
-    "SHA-1 of (configuration, schedule)."
+    "SHA-1 of (configuration, schedule). Entry points (real collector, single thread): generated solver histories on seven frontend "
+    "configurations with Z3_solver_check / Z3_solver_check_assumptions wrapped from outside claripy - whenever one of them is entered "
+    "during an operation that started with the collector enabled, the collector must be disabled; after every operation the collector "
+    "state equals the state before it and the in-progress count is 0 (non-trivial: the history made at least one solver check)."
 )
 ASSUMPTIONS = [
     "line-granularity interleavings (sys.settrace line events) of the Python code of _enter_z3/_exit_z3/z3_condom; sub-line (bytecode) interleavings are not explored",
@@ -63,8 +66,13 @@ def configs(tier):
     return out
 
 
+ENTRY_FRONTENDS = ("Solver", "SolverCacheless", "SolverComposite", "SolverHybrid", "SolverReplacement", "Solver-track", "SolverComposite-track")
+
+
 def shards(tier, seed):
     out = configs(tier)
+    for i, fe in enumerate(ENTRY_FRONTENDS):
+        out.append({"kind": "entry", "frontend": fe, "i": i, "n": 60 if tier == "quick" else 1500, "hseed": seed * 1000 + 1950 + i})
     for i in range(8 if tier == "quick" else 16):
         out.append({"kind": "random", "i": i, "n": 150 if tier == "quick" else 6000, "hseed": seed * 1000 + 1900 + i})
     return out
@@ -99,6 +107,8 @@ def run_case(case):
 
 
 def replay(case):
+    if case.get("entry"):
+        return run_entry_case(case)[0][:1]
     try:
         r = run_case(case)
     except sched.HarnessGone:
@@ -106,8 +116,101 @@ def replay(case):
     return [(f"{kind}:threads={len(case['programs'])}", {"step": step, **detail}) for kind, step, detail in r.violations[:1]]
 
 
+class _CheckProbe:
+    """Wraps the two Z3 API functions that run a solver (from outside claripy) and records the real collector's state at the
+    moment they are entered."""
+
+    NAMES = ("Z3_solver_check", "Z3_solver_check_assumptions")
+
+    def __init__(self):
+        self.enabled_calls = 0
+        self.calls = 0
+        self.saved = []
+
+    def __enter__(self):
+        import gc
+
+        import z3
+        import z3.z3 as zz
+
+        for n in self.NAMES:
+            f = getattr(zz, n)
+
+            def w(*a, _f=f, **k):
+                self.calls += 1
+                if gc.isenabled():
+                    self.enabled_calls += 1
+                return _f(*a, **k)
+
+            self.saved.append((zz, n, f))
+            setattr(zz, n, w)
+            if getattr(z3, n, None) is f:
+                self.saved.append((z3, n, f))
+                setattr(z3, n, w)
+        return self
+
+    def __exit__(self, *a):
+        for mod, n, f in self.saved:
+            setattr(mod, n, f)
+        self.saved.clear()
+        return False
+
+
+def run_entry_case(case):
+    """-> (fails, info): the history is run on a real solver with the real collector enabled (or disabled) beforehand."""
+    import gc
+
+    from .. import solver_machine as sm
+
+    bz = sched.target()
+    fails = []
+    info = {"checks": 0, "ops_with_checks": 0}
+    was = gc.isenabled()
+    probe = _CheckProbe()
+
+    class M(sm.Machine):
+        def step(self_, i, step):  # noqa: N805
+            before_enabled, before_calls = probe.enabled_calls, probe.calls
+            sm.Machine.step(self_, i, step)
+            if probe.calls > before_calls:
+                info["ops_with_checks"] += 1
+            if probe.enabled_calls > before_enabled and case["gc"] and not fails:
+                fails.append((f"solver-check-with-gc-enabled:{step['op']}", {"frontend": case["frontend"], "step": i, "op": step["op"], "checks_with_gc_enabled": probe.enabled_calls - before_enabled}))
+            if gc.isenabled() != bool(case["gc"]) and not fails:
+                fails.append((f"gc-state-not-restored:{step['op']}", {"frontend": case["frontend"], "step": i, "op": step["op"], "enabled_after": gc.isenabled(), "enabled_before": bool(case["gc"])}))
+            if bz._active_z3_calls != 0 and not fails:
+                fails.append((f"in-progress-count-nonzero-at-rest:{step['op']}", {"frontend": case["frontend"], "step": i, "count": bz._active_z3_calls}))
+
+    try:
+        (gc.enable if case["gc"] else gc.disable)()
+        with probe:
+            M(case["frontend"]).run(case["history"], stop_on_fail=False)
+    finally:
+        (gc.enable if was else gc.disable)()
+    info["checks"] = probe.calls
+    return fails, info
+
+
 def run_shard(shard, ctx):
     sched.target()
+    if shard["kind"] == "entry":
+        from .. import exprcheck, solver_machine as sm
+
+        groups = ("core", "maint", "branch", "core-track") if shard["frontend"].endswith("-track") else ("core", "maint", "branch")
+
+        def ebody(v):
+            hist, g = v
+            exprcheck.reset_caches()
+            case = {"entry": True, "frontend": shard["frontend"], "gc": g, "history": hist}
+            fails, info = run_entry_case(case)
+            ctx.count("real_solver_checks_observed", info["checks"])
+            ctx.case(case, info["ops_with_checks"] >= 1, [f"entry:{shard['frontend']}", f"gc0:{g}"],
+                     sample={"frontend": shard["frontend"], "gc_initially_enabled": g, "history": hist[:6], "solver_checks": info["checks"]})
+            for fp, obs in fails[:1]:
+                ctx.fail(fp, case, obs)
+
+        hyp.run(st.tuples(sm.histories(groups, max_steps=20), st.sampled_from((True, True, True, False))), shard["n"], shard["hseed"], ebody, ctx)
+        return
     if shard["kind"] == "dfs":
         progs = [PROGRAMS[p] for p in shard["programs"]]
         st_ = sched.explore(progs, shard["gc"], shard["bound"], lambda r, prefix: _record(ctx, shard, r, prefix), ctx.out_of_time)
@@ -135,6 +238,16 @@ def run_shard(shard, ctx):
 
 def shrink(case, obs, fp, matcher, deadline):
     from .. import shrink as shrinker
+
+    if case.get("entry"):
+        def still_h(h):
+            for f, o in replay({**case, "history": h}):
+                if f == fp:
+                    return o
+            return None
+
+        h, o = shrinker.ddmin_list(list(case["history"]), still_h, deadline)
+        return {**case, "history": h}, (o if o is not None else obs)
 
     def still(schedule):
         c = {**case, "schedule": schedule}
